@@ -1,7 +1,42 @@
 (* OCaml side of the C10 correspondence.  Glue only: parses the serialised trees (gen/equals_gen.py: ser) of one
-   case per line  <script>|<roots>|<queries>|<tree>;<tree>;...  and prints, for the four instances of the model,
-   one 0/1 per query:  now=.. pinned=.. vc=.. ideal=..   No property logic here. *)
+   case per line  <script>|<roots>|<queries>|<tree>;<tree>;...  and prints, for five instances of the model,
+   one 0/1 per query:  now=.. pinned=.. vc=.. vcu=.. ideal=..   No property logic here.
+
+   The comparison of doubles is a PARAMETER of the Coq model (the theorems assume only that it is an equivalence on the
+   values they speak about).  Here it is instantiated by a transcription of utilities.cpp: areNearlyEqual / ulpsDistance
+   on the IEEE doubles themselves (the rationals of the trees are dyadic and convert back exactly):
+     neq_code = the code as it is: fabs(a-b) <= DBL_EPSILON, else same sign and at most one ulp apart
+     neq_ulp  = the same without the absolute test (what the property describes: "within one unit in the last place")
+     Qeq_bool = exact equality (inside the extracted equals_ideal)                                                    *)
 open Equals_model
+
+let rec float_of_pos = function XH -> 1.0 | XO p -> 2.0 *. float_of_pos p | XI p -> 2.0 *. float_of_pos p +. 1.0
+let rec log2_pos = function XH -> 0 | XO p -> 1 + log2_pos p | XI _ -> failwith "denominator is not a power of two"
+let float_of_q q =
+  let n = match q.qnum with Z0 -> 0.0 | Zpos p -> float_of_pos p | Zneg p -> -. (float_of_pos p) in
+  Float.ldexp n (- (log2_pos q.qden))
+
+(* utilities.cpp: ulpsDistance (uint64_t arithmetic) *)
+let ulps_distance a b =
+  if Float.is_nan a || Float.is_nan b then Int64.minus_one
+  else if (Float.abs a = Float.infinity) <> (Float.abs b = Float.infinity) then Int64.minus_one
+  else
+    let ia = Int64.bits_of_float a and ib = Int64.bits_of_float b in
+    if Int64.unsigned_compare ia ib < 0 then Int64.sub ib ia else Int64.sub ia ib
+
+(* utilities.cpp: areNearlyEqual *)
+let are_nearly_equal a b =
+  if Float.abs (a -. b) <= epsilon_float then true
+  else if (a < 0.0) <> (b < 0.0) then false
+  else Int64.unsigned_compare (ulps_distance a b) 1L <= 0
+
+let within_one_ulp a b =
+  if a = b then true
+  else if (a < 0.0) <> (b < 0.0) then false
+  else Int64.unsigned_compare (ulps_distance a b) 1L <= 0
+
+let neq_code x y = are_nearly_equal (float_of_q x) (float_of_q y)
+let neq_ulp x y = within_one_ulp (float_of_q x) (float_of_q y)
 
 let explode s = List.init (String.length s) (String.get s)
 let hexdecode h =
@@ -91,7 +126,9 @@ let () =
                 | [i; j] -> (roots.(int_of_string i), roots.(int_of_string j))
                 | _ -> raise (Bad ("query " ^ q))) queries in
             let run f = String.concat "" (List.map (fun (a, b) -> if f a b then "1" else "0") pairs) in
-            Printf.printf "now=%s pinned=%s vc=%s ideal=%s\n" (run equals_now) (run equals_pinned) (run equals_varcount) (run equals_ideal)
+            Printf.printf "now=%s pinned=%s vc=%s vcu=%s ideal=%s\n"
+              (run (eq_entity neq_code flags_now)) (run (eq_entity neq_code flags_repo_pinned))
+              (run (eq_entity neq_code flags_fixed)) (run (eq_entity neq_ulp flags_fixed)) (run equals_ideal)
           | _ -> print_endline "BADCASE"
         with Bad m -> Printf.printf "BAD(%s)\n" m
            | Invalid_argument m -> Printf.printf "BAD(%s)\n" m
